@@ -1,0 +1,72 @@
+//go:build verif
+
+// con-c17c: byte CONTENTS of the in-memory part of singleapp.AppendableFile (C17, "reads return exactly the bytes last
+// written at those offsets"). The size arithmetic and the representation invariant are in zz_verif_contracts.go; the
+// content clauses of write / Append / readAt / ReadAt / SetOffset are additive extensions of the blocks there (labels
+// `c17c_*`), because a `//@ func` block may exist only once per package. This file holds the abstract view and the
+// property-level harnesses.
+//
+// Abstract view. The logical log of an AppendableFile a is
+//
+//	FILE[fileBaseOffset : fileBaseOffset+fileOffset)  ++  writeBuffer[wbufFlushedOffset : wbufUnwrittenOffset)
+//
+// writeBuffer[flushed+j] (0 <= j < unwritten-flushed) is the byte at logical offset fileOffset+j: appended, not yet
+// handed to f.Write. writeBuffer[0:flushed] (non-empty only with retryable sync) are bytes that WERE written and are
+// counted in fileOffset; they are kept for re-writing after a failed fsync and are not part of the window.
+// flush() hands exactly writeBuffer[flushed:unwritten] to f.Write and advances fileOffset and flushed by the number
+// of bytes written; it never writes Go memory other than *aof (`assigns aof`, proved), so window bytes that stay
+// buffered keep their values and their logical offsets (fileOffset-flushed is invariant under flush).
+package singleapp
+
+// spec_winByte: the byte of the log at logical offset o, for fileOffset <= o < size (documentation of the index map used
+// in the clauses c17c_buf / c17c_span; the clauses spell the index out so that it has the shape of the code's own terms).
+func spec_winByte(a *AppendableFile, o int64) byte {
+	return a.writeBuffer[a.wbufFlushedOffset+int(o-a.fileOffset)]
+}
+
+// Property-level statement 1 (append-then-read, no flush inside the call): what Append put into the log at the offset
+// it returned is what ReadAt returns for that offset, completely and without error.
+// Loop-free harness over the real Append / ReadAt (seen through their contracts; write/readAt are verified separately).
+//
+//@ func verif_append_then_read
+//@   requires wf: a.f != nil && 0 <= a.wbufFlushedOffset && a.wbufFlushedOffset <= a.wbufUnwrittenOffset && a.wbufUnwrittenOffset <= len(a.writeBuffer) && (a.readOnly || len(a.writeBuffer) > 0) && a.fileOffset >= int64(a.wbufFlushedOffset) && a.fileOffset <= spec_maxLog && a.fileOffset + int64(a.wbufUnwrittenOffset - a.wbufFlushedOffset) <= spec_maxLog && (a.retryableSync || a.wbufFlushedOffset == 0 || a.wbufFlushedOffset < len(a.writeBuffer))
+//@   requires phys: spec_sz(a.fileOffset, a.wbufUnwrittenOffset, a.wbufFlushedOffset) <= spec_maxLog - int64(len(bs)) - 4
+//@   requires open: a.compressionFormat == 0 && !a.closed && !a.readOnly
+//@   requires fit: len(bs) > 0 && len(bs) <= len(a.writeBuffer) - a.wbufUnwrittenOffset && len(out) == len(bs)
+//@   requires sep: !sameobj(bs, a) && !sameobj(bs, a.writeBuffer) && !sameobj(out, a) && !sameobj(out, a.writeBuffer) && !sameobj(out, bs) && out != nil
+//@   ensures appended: err == nil && n == len(bs)
+//@   ensures complete: err2 == nil && m == len(bs)
+//@   ensures roundtrip: forall(k, 0, len(bs), out[k] == old(bs[k]))
+//@   ensures same: eqBytes(out, bs)
+func verif_append_then_read(a *AppendableFile, bs, out []byte) (off int64, n, m int, err, err2 error) {
+	off, n, err = a.Append(bs)
+	m, err2 = a.ReadAt(out, off)
+	return
+}
+
+// Property-level statement 2 (the rewind variant that the stale-read defect fixed in 2fdb7b4 violated):
+// SetOffset(o) with o inside the flushed region, then Append(bs), then a read that starts at r < o and spans the rewind
+// point: every byte at a logical offset >= o comes from bs, never from the (longer, stale) physical file.
+// NB this harness sees readAt through its contract clause c17c_span, whose own obligation FAILS for the body of readAt
+// (genuine defect: a short / failed file part is followed by the buffer part at the wrong position and its error is
+// overwritten, see /verif/notes/con-c17c.md): the statement below holds for the code once that clause holds.
+//
+//@ func verif_rewind_append_read
+//@   requires wf: a.f != nil && 0 <= a.wbufFlushedOffset && a.wbufFlushedOffset <= a.wbufUnwrittenOffset && a.wbufUnwrittenOffset <= len(a.writeBuffer) && (a.readOnly || len(a.writeBuffer) > 0) && a.fileOffset >= int64(a.wbufFlushedOffset) && a.fileOffset <= spec_maxLog && a.fileOffset + int64(a.wbufUnwrittenOffset - a.wbufFlushedOffset) <= spec_maxLog && (a.retryableSync || a.wbufFlushedOffset == 0 || a.wbufFlushedOffset < len(a.writeBuffer))
+//@   requires open: a.compressionFormat == 0 && !a.closed && !a.readOnly
+//@   requires rewind: 0 <= r && r < o && o < a.fileOffset
+//@   requires phys: a.fileOffset <= spec_maxLog - int64(len(bs)) - 4
+//@   requires fit: len(bs) > 0 && len(bs) <= len(a.writeBuffer) && int64(len(out)) > o - r
+//@   requires sep: !sameobj(bs, a) && !sameobj(bs, a.writeBuffer) && !sameobj(out, a) && !sameobj(out, a.writeBuffer) && !sameobj(out, bs) && out != nil
+//@   ensures rewound: err0 == nil
+//@   ensures appended: err == nil && n == len(bs) && off == o
+//@   ensures frombs: forall(k, int(o-r), m, k-int(o-r) < len(bs) ==> out[k] == old(bs[k-int(o-r)]))
+func verif_rewind_append_read(a *AppendableFile, o, r int64, bs, out []byte) (off int64, n, m int, err0, err, err2 error) {
+	err0 = a.SetOffset(o)
+	if err0 != nil {
+		return
+	}
+	off, n, err = a.Append(bs)
+	m, err2 = a.ReadAt(out, r)
+	return
+}
